@@ -180,7 +180,7 @@ def own(pid, ops):
         OP_OWNERS.setdefault(o, set()).add(pid)
 
 
-own("C01", "add sub checked_add checked_sub add_sc sub_sc rsub_sc")
+own("C01", "add sub checked_add checked_sub add_sc sub_sc rsub_sc inc dec")
 own("C02", "mul checked_mul mul_sc")
 own("C03", "div rem div_rem checked_div div_floor mod_floor div_mod_floor div_ceil div_euclid rem_euclid div_rem_euclid checked_div_euclid checked_rem_euclid checked_div_rem_euclid is_multiple_of")
 own("C07", "bitand bitor bitxor not shl shr bit set_bit bits trailing_zeros trailing_ones count_ones")
